@@ -48,7 +48,7 @@ def default_cfg():
 class Step:
     __slots__ = ('idx', 'ep', 'kind', 'op', 'args', 'ok', 'exc', 'ret', 'events', 'raw_events',
                  'out', 'out_frames', 'in_frames', 'chunk', 'tick', 'tainted', 'pre', 'units',
-                 'snap', 'rejected')
+                 'snap', 'rejected', 'obs')
 
     def __init__(self):
         self.exc = None
@@ -64,6 +64,7 @@ class Step:
         self.units = ()          # recv: dispatch units completed by this chunk
         self.snap = None         # connection-level scalars before the step
         self.rejected = ()       # recv: per unit, answered with RST_STREAM
+        self.obs = None          # read-only window probes after the step {sid: (local, remote)}
 
     def brief(self):
         d = {'i': self.idx, 'ep': self.ep, 'k': self.kind}
@@ -76,7 +77,7 @@ class Step:
             if self.events is not None:
                 d['events'] = [e['t'] for e in self.events]
         if self.exc:
-            d['exc'] = [self.exc['type'], self.exc['code']]
+            d['exc'] = [self.exc['type'], self.exc['code'], self.exc['where']]
         d['out'] = [f.brief() for f in self.out_frames]
         return d
 
@@ -216,6 +217,8 @@ class World:
         self.monitors = []
         self.fault_fired = {}
         self.stop = False
+        self.sent_frames = {'c2s': {}, 's2c': {}}   # stream offset -> frame as emitted
+        self.observe_windows = False
 
     def close(self):
         h2.frame_buffer.CONTINUATION_BACKLOG = self._saved_backlog
@@ -293,11 +296,36 @@ class World:
         out = e.conn.data_to_send()
         s.out = out
         s.out_frames = e.out_tap.feed(out) if out else []
+        if s.out_frames:
+            sf = self.sent_frames[self.out_dir(e.name)]
+            for f in s.out_frames:
+                f.src_step = s
+                sf[f.offset] = f
         e.outbox += out
         e.total_out += len(out)
         e.log.append(s)
         self.steps.append(s)
         self._advance(e, s)
+        if self.observe_windows:
+            self._observe(e, s)
+
+    def _observe(self, e, s):
+        """Read-only probes (harness side, not part of the trace): the two
+        public window queries for every live tracked stream."""
+        obs = {}
+        conn = e.conn
+        n = 0
+        for sid, st in e.trk.streams.items():
+            if st.state == 'closed':
+                continue
+            n += 1
+            if n > 24:
+                break
+            try:
+                obs[sid] = (conn.local_flow_control_window(sid), conn.remote_flow_control_window(sid))
+            except Exception as ex:  # noqa: BLE001
+                obs[sid] = type(ex).__name__
+        s.obs = obs
 
     @staticmethod
     def _snap(trk):
@@ -307,7 +335,8 @@ class World:
                 'open_mine': trk.count_open(True), 'open_peer': trk.count_open(False),
                 'peer': dict(trk.peer), 'mine': dict(trk.mine),
                 'outstanding': len(trk.sent_settings), 'close_counter': trk.close_counter,
-                'goaway_sent': trk.goaway_sent, 'nstreams': len(trk.streams)}
+                'goaway_sent': trk.goaway_sent, 'nstreams': len(trk.streams),
+                'hi_peer_maybe': set(trk.hi_peer_maybe)}
 
     def _advance(self, e, s):
         """Advance the endpoint's wire tracker over this step, remembering the
@@ -341,11 +370,37 @@ class World:
             if not trk.closed:
                 trk.closed = True
                 trk.closed_how = 'conn_error'
+        accepted = {}
+        if len(units) > 1 and s.events:
+            for ev in s.events:
+                t = ev['t']
+                if t in ('RequestReceived', 'ResponseReceived', 'InformationalResponseReceived', 'TrailersReceived'):
+                    k = (C.HEADERS, ev['stream_id'])
+                elif t == 'DataReceived':
+                    k = (C.DATA, ev['stream_id'])
+                else:
+                    continue
+                accepted[k] = accepted.get(k, 0) + 1
+        skip_all = conn_error and len(units) > 1     # culprit unknown inside a burst: connection is dead anyway
         for i, f in enumerate(units):
             st = trk.get(f.sid) if f.sid else None
             pres.append(st.copy() if st is not None else None)
+            if skip_all:
+                rej.append(False)
+                if f.type == C.HEADERS and f.sid and not trk.is_mine(f.sid) and f.sid > trk.hi_peer:
+                    trk.hi_peer_maybe.add(f.sid)
+                continue
             r = False
-            if f.type in (C.HEADERS, C.DATA, C.WINDOW_UPDATE, C.CONTINUATION):
+            if f.type in (C.HEADERS, C.DATA):
+                r = f.sid in out_rst
+                if r and len(units) > 1:
+                    # burst: the first n frames of this kind on the stream that
+                    # produced an event were accepted before the stream error
+                    key = (f.type, f.sid)
+                    if accepted.get(key, 0) > 0:
+                        accepted[key] -= 1
+                        r = False
+            elif f.type in (C.WINDOW_UPDATE, C.CONTINUATION):
                 r = f.sid in out_rst
             elif f.type == C.PUSH_PROMISE:
                 r = (f.promised in out_rst) or (f.sid in out_rst)
